@@ -575,9 +575,10 @@ impl World {
             0 => {
                 // sstore: unique value, same value again, or zero
                 let slot = self.slot();
-                let v = match self.rng.below(6) {
+                let v = match self.rng.below(7) {
                     0 => [0u8; 32],
-                    1 => asm::word_u64(7), // shared constant: same-value overwrites happen
+                    1 | 2 => asm::word_u64(7), // shared constants: same-value overwrites and A, B, A sequences happen
+                    3 => asm::word_u64(8),
                     _ => self.value_word(),
                 };
                 asm::tool_call(asm::OP_SSTORE, &[asm::word_u64(slot), v], &[])
